@@ -721,7 +721,8 @@ Inductive case :=
 | CLlgrScenario (x : ectx) (emax : N) (raddr : ipaddr) (cid : option N) (ps : peer_src)
                 (nh : option nexthop) (attrs : list attr)               (* 11 *)
 | CProcessPol (x : ectx) (emax : N) (raddr : ipaddr) (cid : option N) (c : change) (e : emap) (probe : list N)
-              (st : stmt) (default : disp).                             (* 12: with a real export policy *)
+              (st : stmt) (default : disp)                              (* 12: with a real export policy *)
+| CHistory (x : ectx) (emax : N) (raddr : ipaddr) (cid : option N) (cs : list change) (probe : list N). (* 13 *)
 
 Definition run_case (c : case) : val :=
   match c with
@@ -747,4 +748,7 @@ Definition run_case (c : case) : val :=
   | CProcessPol x emax raddr cid ch e probe st default =>
     v_res (fun r => VL [VList v_sinkop (fst r); v_emap (snd r) probe])
           (process_change x (stmt_policy x raddr st default) emax raddr cid ch e)
+  | CHistory x emax raddr cid cs probe =>
+    v_res (fun r => VL [VList v_sinkop (fst r); v_emap (snd r) probe])
+          (run_changes x no_policy emax raddr cid cs (if emax =? 1 then ENone else EAddPath []))
   end.
